@@ -136,7 +136,7 @@ func main() {
 		}
 	}
 
-	total := o.Count(300, 30000)
+	total := o.Count(300, 3000)
 	for c := 0; c < total; c++ {
 		f := fmts[r.Pick(len(fmts))]
 		env := pipe.Env{Header: r.Chance(0.5), Trailer: r.Chance(0.5), Ctx: "H1"}
